@@ -292,6 +292,10 @@ static void start_hang(const char *where)
   if (g_in_start)
     vk_violation("C04", "start-hangs", "h_start", "reproc_start blocked forever in %s", where);
   vk_obs("hang(%s)", where);
+  /* the execution ends here: what the end-of-history check would have said about the targets of kill()/waitpid() */
+  if (vk_bad_kills || vk_bad_waits)
+    vk_violation("C06", "kill-wait-target", "h_start|hang", "%d kill and %d waitpid call(s) targeted something other than the live, unreaped child of the handle (the call then blocked forever in %s)",
+                 vk_bad_kills, vk_bad_waits, where);
 }
 
 static int any_injected(int api, int *err_out, int *side_mask)
@@ -615,6 +619,14 @@ after_ident:;
       break;
     }
     case H_TERMKILL: {
+      {
+        /* starting a running handle again is refused - and must leave it as it is: what follows still reaches the child of the first start */
+        int armed = vk_faults_armed;
+        vk_faults_armed = 0;
+        int r2 = hx_start(p, sc.argv, sc.o);
+        vk_faults_armed = armed;
+        if (pa->scn != SC_FORK && r2 != REPROC_EINVAL) vk_violation("C14", "start-twice-rejected", key, "a second start on a running handle returned %s", hx_errname(r2));
+      }
       int t = hx_terminate(p);
       (void) t;
       status = hx_wait(p, REPROC_INFINITE);
